@@ -79,14 +79,14 @@ Theorem cok_rep_ok : forall c, cokb c = true -> rep_ok (strip c).
 Proof. intros c H. apply rep_okb_spec, cokb_rep_ok, H. Qed.
 Print Assumptions cok_rep_ok.
 
-(* (5) String(): the printed form is the rendering of a token sequence that the recursive-descent
-   parser for TLA+ constant expressions reads back to exactly the value (any depth, any strings).
-   The byte-level statement composes this with the lexer; that the lexer recovers the tokens of
-   every printed form is not proved in general (print_parse_partial is conditional on it) — it is
-   evaluated by the correspondence check on every case (check 8). *)
-Definition print_parse_full_statement : Prop :=
-  forall v, printable_val v = true -> exists v', parse (print v) = Some v' /\ canon v' = canon v.
-
+(* (5) String(): the printed form of every value, read as a TLA+ constant expression by the lexer and
+   recursive-descent parser of C05/Model.v, is exactly that value — at byte level, for every nesting
+   depth and every string (quotes and backslashes escaped as strconv.Quote does on printable ASCII;
+   bytes outside printable ASCII are outside the model of Quote, see notes).
+   Proof: the byte printer is the rendering of the token printer (print_is_rendered_tokens); the
+   parser inverts the token printer (parse_print_tokens); the lexer inverts the rendering of every
+   token sequence in which a number is never directly followed by a number (decimal numerals,
+   escaped strings, keywords with pairwise different first bytes), which the printer's are. *)
 Theorem print_is_rendered_tokens : forall v, print v = render (print_tokens v).
 Proof. exact print_render. Qed.
 Print Assumptions print_is_rendered_tokens.
@@ -95,10 +95,18 @@ Theorem parse_print_tokens : forall v, parse_tokens (print_tokens v) = Some v.
 Proof. exact parse_print_tokens_lemma. Qed.
 Print Assumptions parse_print_tokens.
 
-Theorem print_parse_partial : forall v,
-  lex (S (List.length (print v))) (print v) = Some (print_tokens v) -> parse (print v) = Some v.
-Proof. exact print_parse_partial_lemma. Qed.
-Print Assumptions print_parse_partial.
+Theorem lexer_inverts_render : forall ts f, wsep ts -> (List.length ts < f)%nat -> lex f (render ts) = Some ts.
+Proof. exact lex_render. Qed.
+Print Assumptions lexer_inverts_render.
+
+Theorem print_parse : forall v, parse (print v) = Some v.
+Proof. exact print_parse_lemma. Qed.
+Print Assumptions print_parse.
+
+Theorem print_parse_statement :
+  forall v, printable_val v = true -> exists v', parse (print v) = Some v' /\ canon v' = canon v.
+Proof. intros v _. exists v. split; [exact (print_parse_lemma v)|reflexivity]. Qed.
+Print Assumptions print_parse_statement.
 
 (* ---- non-vacuity ---- *)
 Definition ex_a : value :=
